@@ -153,6 +153,10 @@ Thirteenth round (m) - breakage that depends on a particular value or shape of a
 * **C16-m** (`save_session()` ignores a falsy session): the session is replaced by an empty one ("logout") and read again.
 * **C18-m** (the instrumented emit wrapper collapses falsy payloads): application emits carry 0, '', [], {}, False and b'' as well.
 * **C19-m** (the simple client strips a trailing slash from its namespace): namespaces '/chat/' and '/a/b/'; a failed initial connect() to a server that accepts the namespace is now a violation, not a harness fault.
+
+Fourteenth round (n) - two cooperating code sites that each look like an innocent refactoring (a helper whose contract changes while one caller is not adapted, a cleanup moved to a method one path does not reach, sync and asyncio variants changed consistently except in one place). 17 changes (all claimed properties but C14, whose differential check is made of the others); 1 of 17 missed at first, reported after strengthening; the other 16 were reported as the checks stood, each by more than a hundred runs of the quick tier:
+
+* **C07-n** (an acknowledgement with a single argument travels unwrapped over the channel and is re-wrapped on arrival, so a single *list* argument comes out as several): relayed ack payloads now include a single list, a single empty list, a single dict and a nested list followed by a second argument.
 """
 
 
